@@ -338,6 +338,15 @@ func check(id, tier string) int {
 		}
 	}
 	wall := time.Since(t0).Seconds()
+	// distinct non-trivial cases: for schedule exploration the distinct final observations; for batched or
+	// enumerated inputs the number of distinct inputs judged (counted by the harness)
+	distinct := len(tot.Outcomes)
+	if n := tot.Extra["distinct_inputs"]; n > distinct {
+		distinct = n
+	}
+	if n := tot.Extra["input_cases_judged"]; n > distinct {
+		distinct = n
+	}
 	ev := map[string]interface{}{
 		"property_id": id,
 		"tier":        tier,
@@ -349,7 +358,7 @@ func check(id, tier string) int {
 			"traces_validated_against_impl": tot.Executions,
 			"samples":                       tot.Samples,
 			"evaluations":                   tot.Executions,
-			"distinct_nontrivial":           len(tot.Outcomes),
+			"distinct_nontrivial":           distinct,
 			"rule":                          tot.Rule,
 			"exhaustive":                    !tot.Capped && tot.Horizon == 0,
 			"scenarios":                     tot.Scenarios,
